@@ -60,7 +60,8 @@ FAULT_KINDS = ["LenaStopFill-from-Slice-mid-flow", "accumulator-exception", "ill
 EXPECTED_PROBES = ["slice-stops-before-flow-end", "slice-stop-inside-split-block", "runif-selected",
                    "filter-rejects", "split-multi-block", "sibling-stops-mid-flow", "watchdog-armed", "adapter-renamed-method",
                    "adapter-ill-typed", "adapter-decoy-standard-method",
-                   "deep-copied-sequence-with-stateful-element", "adapter-element-is-falsy"]
+                   "deep-copied-sequence-with-stateful-element", "adapter-element-is-falsy",
+                   "adapter-call-of-a-class-with-instance-call", "adapter-call-instance-attribute-dunder-call"]
 
 ACCS = ["sum", "dsum", "mean", "mean-pass", "mean-sumseq", "vmc", "vectorize", "store",
         "store-items", "groupby", "histogram", "count", "probe"]
@@ -746,6 +747,27 @@ VALID_NAMED = {"Call": (0, 1, 6, 7), "Run": (0, 1), "FillInto": (0, 1), "FillCom
                "SourceEl": (0, 1, 6)}
 
 
+class Boxed(object):
+    """a class whose instances are callable too (Call(Boxed)(v) must be Boxed(v))"""
+
+    def __init__(self, v):
+        self.v = v
+
+    def __call__(self, w):
+        return ("boxed-instance-called", self.v, w)
+
+    def __eq__(self, other):
+        return type(other) is Boxed and other.v == self.v
+
+    def __ne__(self, other):
+        return not self == other
+
+    __hash__ = None
+
+    def __repr__(self):
+        return "Boxed(%r)" % (self.v,)
+
+
 def adapter_case(sc, res):
     A = sc.adapter
     name = sc.mname
@@ -775,12 +797,22 @@ def adapter_case(sc, res):
                 got = [ad(v) for v in flow]
                 expect = [("c", v) for v in flow]
                 res.probe("adapter-renamed-method")
+            elif sc.case == 2 and n % 3 == 1:
+                # a class is a callable: Call(cls)(v) is cls(v), whatever cls defines for its instances
+                res.probe("adapter-call-of-a-class-with-instance-call")
+                ad = lena.core.Call(Boxed)
+                got = [ad(v) for v in flow]
+                expect = [Boxed(v) for v in flow]
             elif sc.case == 2:
                 ad = lena.core.Call(lambda v: ("f", v))
                 got = [ad(v) for v in flow]
                 expect = [("f", v) for v in flow]
             elif sc.case == 3:
                 ill = True
+                if n % 2:
+                    # an attribute called __call__ on the instance does not make it callable
+                    res.probe("adapter-call-instance-attribute-dunder-call")
+                    o.__call__ = lambda v: ("i", v)
                 lena.core.Call(o)                      # not callable, no name
             elif sc.case == 4:
                 ill = True
